@@ -151,6 +151,14 @@ func KeyIndexes(name string, args [][]byte) ([]int, bool) {
 			idx = append(idx, 2+i)
 		}
 		return idx, true
+	case "vk.pick": // a module command of this double: VK.PICK <i> <a0> <a1> <a2> - its key is a<i> (same name, same
+		// arity, the key at another position each time, as SORT ... STORE or the *STORE commands have it)
+		if len(args) == 4 {
+			if i, ok := atoi(args[0]); ok && i >= 0 && i <= 2 {
+				return []int{1 + int(i)}, true
+			}
+		}
+		return nil, false
 	case "ping", "select", "multi", "exec", "info", "publish", "script", "function", "flushall", "flushdb", "replconf", "cluster", "command", "asking", "echo", "auth", "client", "wait", "readonly", "readwrite", "dbsize", "keys", "psync":
 		return nil, true
 	}
